@@ -41,3 +41,34 @@ pub fn install_logger() {
         log::set_max_level(log::LevelFilter::Trace);
     }
 }
+
+use std::sync::atomic::{AtomicI32, Ordering};
+static REAL_STDOUT: AtomicI32 = AtomicI32::new(1);
+
+/// The library prints to stdout on one error path; keep the verdict stream clean by pointing fd 1
+/// at /dev/null while checks run and writing verdict lines to the saved descriptor.
+pub fn protect_stdout() {
+    unsafe {
+        let saved = libc::dup(1);
+        let null = libc::open(b"/dev/null\0".as_ptr() as *const libc::c_char, libc::O_WRONLY);
+        if saved >= 0 && null >= 0 {
+            libc::dup2(null, 1);
+            libc::close(null);
+            REAL_STDOUT.store(saved, Ordering::Relaxed);
+        }
+    }
+}
+
+pub fn out_line(s: &str) {
+    let fd = REAL_STDOUT.load(Ordering::Relaxed);
+    let mut b = s.as_bytes().to_vec();
+    b.push(b'\n');
+    let mut off = 0;
+    while off < b.len() {
+        let n = unsafe { libc::write(fd, b[off..].as_ptr() as *const libc::c_void, b.len() - off) };
+        if n <= 0 {
+            break;
+        }
+        off += n as usize;
+    }
+}
